@@ -46,3 +46,10 @@ def _c2(ob, con):
     L = LPSI(arr, n, f)
     return z3.And(n > 0, z3.Not(lps_none(arr, n, f)),
                   s_tf(z3.Select(arr, L)) + FALL(s_pulse(z3.Select(arr, L)), cs_chan(cs), in_eom(h, cs)) > s_tf(z3.Select(arr, n - 1)))
+
+
+@cls("ramp-of-duration-one")
+def _c3(ob, con):
+    from pyvc.core import Ref, uf, I
+    self = z3.Const("self", Ref)
+    return uf("Waveform._duration", Ref, I)(self) == 1
